@@ -1,4 +1,162 @@
+import IpcHub.Drv.Util
+import IpcHub.Model.TablesInst
+import IpcHub.Spec.UserEntry
 namespace IpcHub.Drv.C18
-/-- placeholder: no model built for this property yet -/
-def handle (_ : List String) : String := "bad-op"
+open IpcHub.Drv IpcHub.Tables IpcHub.TableSpec IpcHub.UserTable IpcHub.Route
+
+/-! line protocol (one line = one complete history, every field hex, "-" = empty):
+    `users <op> …` with   s,<name>,<password>,<admin>,<push>,<pull>,<update_password>
+    `routes <op> …` with  s,<pattern>,<url>,<keepalive>,<urlok>
+    both:  d,<key>  g,<key>  a  f (Flush)  r (restart: Reset from the file)
+           x,missing | x,corrupt | x,emptylist   (the file is replaced by hand)
+    answer: `model=<obs>|… spec=<obs>|…`; the spec answers "-" where the statement says nothing
+    `crash <hook> <partial|-> <old-hex|none> <new-hex>` → what a restart reads after the process
+    died at that crash point of EncodeJSONFile: `old|new|missing|other:<hex>` -/
+
+inductive TOp (V : Type) where
+  | save (v : V) (flag : Bool)
+  | del (k : List Char)
+  | get (k : List Char)
+  | all
+  | flush
+  | restart
+  | setDisk (kind : String)
+
+structure Kind (V : Type) where
+  ops : Ops V
+  spec : EntrySpec V
+  dflt : List V
+  fmt : V → String
+  guarded : Bool
+
+def fmtUser (u : User) : String :=
+  s!"{charsToHex u.name},{charsToHex u.password},{boolStr u.admin},{charsToHex u.push},{charsToHex u.pull}"
+
+def fmtRoute (r : Route) : String :=
+  s!"{charsToHex r.pattern},{charsToHex r.url},{boolStr r.keepAlive}"
+
+def fmtList {V : Type} (f : V → String) (l : List V) : String :=
+  if l.isEmpty then "[]" else "+".intercalate (l.map f)
+
+def fmtKeys (l : List Key) : String :=
+  if l.isEmpty then "[]" else "+".intercalate (l.map charsToHex)
+
+def fmtOpt {V : Type} (f : V → String) : Option V → String
+  | none => "none"
+  | some v => "F:" ++ f v
+
+def parseCommon {V : Type} (p : List String) : Option (TOp V) :=
+  match p with
+  | ["d", k] => (hexToChars k).map .del
+  | ["g", k] => (hexToChars k).map .get
+  | ["a"] => some .all
+  | ["f"] => some .flush
+  | ["r"] => some .restart
+  | ["x", kind] => some (.setDisk kind)
+  | _ => none
+
+def parseUserOp (tok : String) : Option (TOp User) :=
+  match tok.splitOn "," with
+  | ["s", n, pw, ad, push, pull, upd] =>
+    match hexToChars n, hexToChars pw, hexToChars push, hexToChars pull with
+    | some n, some pw, some push, some pull =>
+      some (.save { name := n, password := pw, admin := ad = "1", push := push, pull := pull } (upd = "1"))
+    | _, _, _, _ => none
+  | p => parseCommon p
+
+/-- also returns the URL when `url.Parse` rejected it -/
+def parseRouteOp (tok : String) : Option (TOp Route × Option (List Char)) :=
+  match tok.splitOn "," with
+  | ["s", p, u, ka, ok] =>
+    match hexToChars p, hexToChars u with
+    | some p, some u => some (.save { pattern := p, url := u, keepAlive := ka = "1" } false, if ok = "1" then none else some u)
+    | _, _ => none
+  | p => (parseCommon p).map (·, none)
+
+def mapM' {α β : Type} (f : α → Option β) : List α → Option (List β)
+  | [] => some []
+  | a :: as => match f a, mapM' f as with
+    | some b, some bs => some (b :: bs)
+    | _, _ => none
+
+def runModel {V : Type} (k : Kind V) : List (TOp V) → Server V → List String → List String
+  | [], _, acc => acc.reverse
+  | op :: rest, sv, acc =>
+    match op with
+    | .save v flag =>
+      let (st, ok) := save k.ops sv.st v flag
+      runModel k rest { sv with st := st } ((if ok then "ok" else "err") :: acc)
+    | .del n => runModel k rest { sv with st := del k.ops sv.st n } ("ok" :: acc)
+    | .get n => runModel k rest sv (fmtOpt k.fmt (get k.ops sv.st n) :: acc)
+    | .all => runModel k rest sv (fmtList k.fmt (all sv.st) :: acc)
+    | .flush =>
+      let o := match flush k.guarded sv.st with
+        | (_, none) => "skip"
+        | (_, some full) => s!"W:{fmtList k.fmt full};S:{fmtKeys sv.st.saves};R:{fmtKeys sv.st.removes}"
+      runModel k rest (Server.step k.ops k.guarded k.dflt sv .flush) (o :: acc)
+    | .restart =>
+      let (sv', ok) := Server.boot k.ops k.dflt sv.disk
+      runModel k rest sv' ((if ok then "ok" else "panic") :: acc)
+    | .setDisk kind =>
+      let d : Disk V := if kind = "missing" then .missing else if kind = "emptylist" then .table [] else .corrupt
+      runModel k rest { sv with disk := d } ("ok" :: acc)
+
+def runSpec {V : Type} (k : Kind V) : List (TOp V) → Abs V → Bool → List String → List String
+  | [], _, _, acc => acc.reverse
+  | op :: rest, a, live, acc =>
+    if !live then runSpec k rest a false ("-" :: acc) else
+    match op with
+    | .save v flag =>
+      let ok := (k.spec.create v).isSome
+      runSpec k rest (Abs.step k.spec k.dflt a (.save v flag)) true ((if ok then "ok" else "err") :: acc)
+    | .del n => runSpec k rest (Abs.step k.spec k.dflt a (.del n)) true ("ok" :: acc)
+    | .get n => runSpec k rest a true (fmtOpt k.fmt (specGet k.spec a.cur n) :: acc)
+    | .all => runSpec k rest a true (fmtList k.fmt a.cur :: acc)
+    | .flush => runSpec k rest (Abs.step k.spec k.dflt a .flush) true ("-" :: acc)
+    | .restart => runSpec k rest (Abs.step k.spec k.dflt a .restart) true ("ok" :: acc)
+    | .setDisk _ => runSpec k rest a false ("-" :: acc)
+
+def answer {V : Type} (k : Kind V) (ops : List (TOp V)) : String :=
+  let m := runModel k ops (Server.boot k.ops k.dflt .missing).1 []
+  let sp := runSpec k ops (Abs.fresh k.spec k.dflt) true []
+  s!"model={"|".intercalate m} spec={"|".intercalate sp}"
+
+def userKind : Kind User :=
+  { ops := userOps PathCanon.asciiLower, spec := EntrySpecs.userSpec PathCanon.asciiLower, dflt := defaultUsers,
+    fmt := fmtUser, guarded := IpcHub.Gen.managerFlushGuard }
+
+def routeKind (bad : List (List Char)) : Kind Route :=
+  let cfg := genCfg PathCanon.asciiLower PathCanon.asciiSpace (fun u => !bad.contains u)
+  { ops := routeOps cfg, spec := EntrySpecs.routeSpec cfg, dflt := defaultRoutes,
+    fmt := fmtRoute, guarded := IpcHub.Gen.routetableFlushGuard }
+
+def crashAnswer (hook part old new : String) : String :=
+  match Fs.genProg, hexToBytes new with
+  | some prog, some newb =>
+    let oldb : Option (Option Fs.Bytes) := if old = "none" then some none else (hexToBytes old).map some
+    match oldb, Fs.hookIndex prog hook with
+    | some oldb, some k =>
+      -- a partial write happens in the write that follows the hook: advance to that write
+      let (k, p) := match part.toNat? with
+        | some n => (k + ((prog.drop k).takeWhile (fun o => match o with | .write _ => false | _ => true)).length, some n)
+        | none => (k, none)
+      let fs := Fs.crashState newb (Fs.Fs.init oldb) prog k p
+      match Fs.processOutcome fs with
+      | none => "missing"
+      | some c => if some c = oldb then "old" else if c = newb then "new" else s!"other:{bytesToHex c}"
+    | _, _ => "no-such-hook"
+  | _, _ => "bad-op"
+
+def handle : List String → String
+  | "users" :: toks =>
+    match mapM' parseUserOp toks with
+    | some ops => answer userKind ops
+    | none => "bad-op"
+  | "routes" :: toks =>
+    match mapM' parseRouteOp toks with
+    | some ops => answer (routeKind (ops.filterMap (·.2))) (ops.map (·.1))
+    | none => "bad-op"
+  | ["crash", hook, part, old, new] => crashAnswer hook part old new
+  | _ => "bad-op"
+
 end IpcHub.Drv.C18
